@@ -33,7 +33,8 @@ def rederive(build, make_observer, cfg, trace, only, pass_hw=False):
     if callable(only):
         only = only(h2)
     names = [n for n, _ in h2.probes if only is None or n in only]
-    got = simulate(h2, trace, probe_names=set(names))
+    pre = bool(isinstance(cfg, dict) and cfg.get("elab_twice"))
+    got = simulate(h2, trace, probe_names=set(names), pre_elab=pre)
     if pass_hw:
         return _rederive_hw(build, make_observer, cfg, trace, only, got)
 
@@ -70,7 +71,8 @@ def _rederive_hw(build, make_observer, cfg, trace, only, got):
         if tuple(outs) != tuple(got[t]):
             raise ToolFailure(f"compiled netlist and amaranth.sim disagree at cycle {t} of the witness")
         for pl in getattr(ob, "probe_letters", lambda: [])():
-            g = simulate(build(cfg), [tuple(l) for l in trace[:t]] + [pl], probe_names=set(comp.probe_names))
+            g = simulate(build(cfg), [tuple(l) for l in trace[:t]] + [pl], probe_names=set(comp.probe_names),
+                         pre_elab=bool(isinstance(cfg, dict) and cfg.get("elab_twice")))
             o, _ = comp.step(hw, pl)
             if tuple(o) != tuple(g[-1]):
                 raise ToolFailure("compiled netlist and amaranth.sim disagree on an owner-inference probe")
@@ -93,6 +95,10 @@ def explore_hw(build, make_observer, cfg, tier, seed, *, only=None, max_states=1
         only = only(h)
     try:
         comp = compile_harness(h, only=only)
+        if isinstance(cfg, dict) and cfg.get("elab_twice"):
+            # "simulate, then synthesise": the SAME instance is elaborated again and the behaviour of the
+            # second elaboration is what gets explored
+            comp = compile_harness(h, only=only)
     except ToolError as e:
         raise ToolFailure(f"netlist: {e}")
     except Exception as e:
@@ -150,7 +156,7 @@ def explore_hw(build, make_observer, cfg, tier, seed, *, only=None, max_states=1
         if not path:
             continue
         h2 = build(cfg)
-        got = simulate(h2, path, probe_names=set(comp.probe_names))
+        got = simulate(h2, path, probe_names=set(comp.probe_names), pre_elab=bool(isinstance(cfg, dict) and cfg.get("elab_twice")))
         st = comp.init
         for t, letter in enumerate(path):
             outs, st = comp.step(st, letter)
